@@ -16,7 +16,7 @@ Operations
 Observation: `-`; `L:<col>` / `T:<col>;<col>…` / `nopath` (None printed as `N`); `t<h>:<record ids>` for the
 emitted text (h = header flag); `ok:<row>` / `raise` for pop; `ok` / `raise` for deletions.
 State: `[buffindex:rows:chapters]` recursively (rows `/`-separated, dicts sorted by key, chapters sorted
-by name as `<name>[…]`), then `;<header>;<log_header>`.
+by name as `<name>[…]`), then `;<header>;<log_header>;<header_streamed>`.
 
 `stats k:<key> r:<name>:<fn>:<args> … d:<data>` and
 `multi s:<sname>:<key> … r:<target|*>:<name>:<fn>:<args> … d:<data>` compile statistics
@@ -83,7 +83,7 @@ partial def showLB (lb : LB) : String :=
 
 def showState (lb : LB) : String :=
   showLB lb ++ ";" ++ (match lb.header with | none => "none" | some h => showList toString h) ++ ";" ++
-    showBool lb.logHeader
+    showBool lb.logHeader ++ ";" ++ showBool lb.headerStreamed
 
 def showCol (c : List (Option Int)) : String := showList (showOpt toString) c |>.replace "none" "N"
 
